@@ -165,6 +165,10 @@ class DiffXReader(object):
             options = section['options']
             section_id = section['section']
 
+            if 'encoding' in options:
+                self._validate_encoding(options['encoding'],
+                                        linenum=linenum)
+
             if section_id in CONTENT_SECTIONS:
                 # This is a content section.
                 encoding = options.get('encoding', encodings[-1])
@@ -428,6 +432,30 @@ class DiffXReader(object):
             'section': section_id,
             'type': section_type.decode('ascii'),
         }
+
+    def _validate_encoding(self, encoding, linenum):
+        """Validate the encoding specified in a section header.
+
+        Args:
+            encoding (object):
+                The value of the ``encoding`` option.
+
+            linenum (int):
+                The line number of the section header.
+
+        Raises:
+            pydiffx.errors.DiffXParseError:
+                The encoding is unknown or can't be used to encode text.
+        """
+        try:
+            if not isinstance(encoding, str):
+                raise LookupError
+
+            '\n'.encode(encoding)
+        except (LookupError, ValueError):
+            raise DiffXParseError(
+                'Unknown or unsupported encoding "%s"' % encoding,
+                linenum=linenum)
 
     def _read_content(self,
                       length,
